@@ -476,6 +476,15 @@ class Ctx:
         print("%s %s: %d theorems (%d discharged), %d cases, %d violations, %d known, %.1fs" % (
             self.prop, self.tier, len(self.obligations), self.discharged, self.evaluations, nviol,
             len(known_lines), wall))
+        rep = getattr(self, "replay", None)
+        if rep is not None:
+            want = rep.get("signature")
+            hit = [v for v in self.violations if v["sig"] == want]
+            if not hit and isinstance(want, dict) and "broken" in want:
+                hit = [b for b in self.broken if b["name"] in want["broken"]]
+            print("REPLAY %s: %s" % (self.prop, ("reproduced: " + str(hit[0].get("what", hit[0].get("name")))[:300]) if hit else "not reproduced on the current tree"))
+            sys.stdout.flush()
+            return 1 if hit else 0
         sys.stdout.flush()
         return 1 if nviol else 0
 
